@@ -522,13 +522,33 @@ def c_checked(eng, st, fr, f, args, site):
             outs.append((ns, Enum(rt, ((1, (val,)),), "chk")))
         except Dead:
             pass
-        outs.append((st.fork(), Enum(rt, ((0, ()),), "chk")))
+        # None: the exact result is out of range; for an unsigned subtraction that means a < b
+        ns = st.fork()
+        try:
+            if opn == "sub" and not val.signed:
+                ns.add_fact(val.lin.neg().sub(1), eng)
+            outs.append((ns, Enum(rt, ((0, ()),), "chk")))
+        except Dead:
+            pass
         return outs
     if mode == "saturating":
         if fits:
             return [(st, val)]
+        lo, hi = ty_range(val.w, val.signed)
         r = eng.fresh_int("sat", val.w, val.signed)
         eng.sym_terms[r.lin.single_sym()] = ("sat", op, a.lin, b.lin)
+        if not val.signed:
+            # unsigned saturation: sub gives max(a - b, 0) <= a ; add / mul give min(exact, MAX) <= exact
+            try:
+                if opn == "sub":
+                    st.add_fact(a.lin.sub(r.lin), eng)
+                    st.add_fact(r.lin.sub(val.lin), eng)
+                else:
+                    st.add_fact(val.lin.sub(r.lin), eng)
+            except Dead:
+                pass
+            if opn == "sub" and "len" in a.tags or a.lin.single_sym() in eng.len_syms:
+                eng.len_syms.add(r.lin.single_sym())
         return [(st, r)]
     return None
 
